@@ -209,7 +209,7 @@ pub fn run_program(p: &TProgram, budget: u32) -> THistory {
             match op {
                 InitOp::Req(sr) => {
                     let lit = sr.materialise(&model);
-                    let resp = exec_one(&mut codec, &handler, &lit.encode());
+                    let resp = stack::guarded(|| exec_one(&mut codec, &handler, &lit.encode())).flatten();
                     model.apply(&lit, resp.as_ref());
                 }
                 InitOp::AdvanceSecs(s) => {
@@ -219,7 +219,7 @@ pub fn run_program(p: &TProgram, budget: u32) -> THistory {
             }
         }
     }
-    let init_violations = model.take_violations();
+    let mut init_violations = model.take_violations();
     let start_stored_bytes = stack.probe().stored_bytes;
     // ---- materialise client requests against the initial state
     let lits: Vec<Vec<Request>> = p.clients.iter().map(|c| c.iter().map(|r| r.materialise(&model)).collect()).collect();
@@ -314,7 +314,7 @@ pub fn run_program(p: &TProgram, budget: u32) -> THistory {
         let handler = BinaryHandler::new(store.clone());
         for sr in &p.settle {
             let lit = sr.materialise(&model);
-            let resp = exec_one(&mut codec, &handler, &lit.encode());
+            let resp = stack::guarded(|| exec_one(&mut codec, &handler, &lit.encode())).flatten();
             let ok = resp.as_ref().map(|r| r.status == 0).unwrap_or(false);
             settle.push((stack.probe().stored_bytes, 24 + lit.value.len() as u64, ok));
         }
@@ -327,11 +327,16 @@ pub fn run_program(p: &TProgram, budget: u32) -> THistory {
         for (i, k) in p.keys.iter().enumerate() {
             let mut r = Request::get(wire::op::GET, k);
             r.opaque = 0xf1a1_0000 | i as u32;
-            let resp = exec_one(&mut codec, &handler, &r.encode());
+            let resp = stack::guarded(|| exec_one(&mut codec, &handler, &r.encode())).flatten();
             final_reads.push((r, resp));
         }
     }
     let probe = stack.probe();
+    // panics of the code under test inside the harness's own sequential calls (initialisation,
+    // probes, settle stores, final reads)
+    for p in stack::take_probe_panics() {
+        init_violations.push(crate::model::Violation::new("C10", "panic", format!("panic inside the server (sequential phase of the program): {}", p)));
+    }
     THistory {
         init_model: model,
         ops,
